@@ -334,6 +334,7 @@ func runC06(c *Ctx) {
 	if !(lvl == zapcore.FatalLevel && fatalHook == hkGoexit) && g.Chance(3) {
 		viaPanic := g.Chance(3)
 		c.Describe("goexit-sibling: a task ended by WriteThenGoexit (panic-level=%v) runs beside the terminal call", viaPanic)
+		c.R.Probe("a sibling goroutine ended by WriteThenGoexit")
 		r.Go("gx", func() {
 			if viaPanic {
 				lg.WithOptions(zap.WithPanicHook(zapcore.WriteThenGoexit)).Panic("goexit-sibling")
